@@ -687,6 +687,9 @@ def _all_paths_return(block: List[ast.stmt]) -> bool:
     if isinstance(last, ast.Try) and last.orelse and not last.finalbody:
         return _all_paths_return(last.orelse) and all(
             _all_paths_return(h.body) for h in last.handlers)
+    if isinstance(last, ast.Try) and not last.orelse and not last.finalbody:
+        return _all_paths_return(last.body) and all(
+            _all_paths_return(h.body) for h in last.handlers)
     return False
 
 
@@ -707,6 +710,21 @@ def _structure_returns(block: List[ast.stmt]) -> Optional[List[ast.stmt]]:
         if isinstance(st, ast.Try) and any(isinstance(x, ast.Return) for x in _walk_scope(st)):
             # try: <no return> except E: ...return v   followed by the rest of the helper:
             # the rest only runs when no handler returned, i.e. it is the try's `else` part
+            if not st.finalbody and not st.orelse and _all_paths_return([st]):
+                # `try: ...; return a  except E: ...; return b` as the tail: every path returns
+                tb = _structure_returns(st.body)
+                hs_ = []
+                for h in st.handlers:
+                    hb = _structure_returns(h.body)
+                    if hb is None:
+                        return None
+                    hs_.append(ast.copy_location(ast.ExceptHandler(type=h.type, name=h.name,
+                                                                   body=hb), h))
+                if tb is None:
+                    return None
+                out.append(ast.copy_location(ast.Try(body=tb, handlers=hs_, orelse=[],
+                                                     finalbody=[]), st))
+                return out
             if st.finalbody or any(isinstance(x, ast.Return) for b_ in st.body
                                    for x in _walk_scope(b_)):
                 return None
@@ -787,9 +805,16 @@ def _returns_to_assign(block: List[ast.stmt], make) -> List[ast.stmt]:
         hs = [ast.copy_location(ast.ExceptHandler(
             type=h.type, name=h.name, body=_returns_to_assign(h.body, make) or [ast.Pass()]), h)
             for h in last.handlers]
-        out.append(ast.copy_location(ast.Try(
-            body=last.body, handlers=hs,
-            orelse=_returns_to_assign(last.orelse, make) or [ast.Pass()], finalbody=[]), last))
+        tb_ = last.body
+        if any(isinstance(x, ast.Return) for b_ in last.body for x in _walk_scope(b_)):
+            tb_ = _returns_to_assign(last.body, make) or [ast.Pass()]
+            out.append(ast.copy_location(ast.Try(body=tb_, handlers=hs, orelse=[],
+                                                 finalbody=[]), last))
+        else:
+            out.append(ast.copy_location(ast.Try(
+                body=tb_, handlers=hs,
+                orelse=_returns_to_assign(last.orelse, make) or [ast.Pass()],
+                finalbody=[]), last))
     else:
         out.append(last)
         # falling off the end returns None
@@ -1201,7 +1226,16 @@ def _inline_generators(fn: ast.AST, helpers, cls, counter: List[int],
             if isinstance(node.value, ast.Yield):
                 return self.make(node.value.value if node.value.value is not None
                                  else ast.Constant(value=None))
+            if isinstance(node.value, ast.YieldFrom) and not self.keep_from:
+                # `yield from it`  ==  `for v in it: yield v`
+                counter[0] += 1
+                v = self.loopvar or f"item_h{counter[0]}"
+                return [ast.For(target=ast.Name(id=v, ctx=ast.Store()), iter=node.value.value,
+                                body=self.make(ast.Name(id=v, ctx=ast.Load())) or [ast.Pass()],
+                                orelse=[])]
             return node
+        keep_from = False
+        loopvar: Optional[str] = None
 
         def visit_FunctionDef(self, node):
             return node
@@ -1317,8 +1351,12 @@ def _inline_generators(fn: ast.AST, helpers, cls, counter: List[int],
                 head = [ast.Assign(targets=[ast.Name(id=tgt.id, ctx=ast.Store())], value=init)]
             pre, body = _instantiate(h, env, caller_names, counter,
                                      extra.get("force"))  # type: ignore[arg-type]
+            tr_ = _Y(make)
+            tr_.keep_from = kind == "yieldfrom"
+            if kind == "for" and isinstance(st.target, ast.Name):
+                tr_.loopvar = st.target.id
             body = [x for s_ in body for x in (lambda r: r if isinstance(r, list) else [r])(
-                _Y(make).visit(s_))]
+                tr_.visit(s_))]
             if kind == "yieldfrom":
                 # nested `yield from` of the helper stay as they are
                 pass
